@@ -94,8 +94,9 @@ func c12Source(t *sim.Tape, mods []c12Mod, i int) string {
 	} else {
 		sb.WriteString("\tlazy: func() { return -1 },\n")
 	}
-	// the builtin module value is one object per VM, whoever imports it
-	sb.WriteString("\thinc: func() { hh := import(\"host\"); hh.arr[1] += 1; return hh.arr[1] },\n")
+	// the builtin module value is one object per VM, whoever imports it: a scalar attribute written through one import
+	// is read through another import expression
+	sb.WriteString("\thinc: func() { hh := import(\"host\"); hh.arr[1] += 1; hh.int = hh.arr[1]; return import(\"host\").int },\n")
 	sb.WriteString("}\n")
 	if m.array {
 		sb.WriteString("return [exp.cell, exp.get, exp.inc, exp.depinc, exp.lazy, exp.hinc]\n")
@@ -123,7 +124,7 @@ func c12Driver(t *sim.Tape, mods []c12Mod, steps int, topImports []int, stride i
 	fmt.Fprintf(&sb, "for step := 0; step < %d; step++ {\n", steps)
 	fmt.Fprintf(&sb, "\tk := (choose(0) * 4 + choose(1) + step * %d) %% %d\n", stride, len(mods))
 	sb.WriteString("\tvia := choose(2)\n\tact := choose(3)\n\tif choose(4) > 2 { act = act + 4 }\n\ttry {\n\t\tm := undefined\n\t\tif via > 1 { m = call(imps[k]) } else { m = imps[k]() }\n")
-	sb.WriteString("\t\tr := undefined\n\t\tif act == 0 || act == 7 { r = fld(m, 2, \"inc\")() } else if act == 1 { r = fld(m, 1, \"get\")() } else if act == 6 { c := fld(m, 0, \"cell\"); c[0] += 1; r = c[0] } else if act == 2 { r = fld(m, 3, \"depinc\")() } else if act == 3 { r = fld(m, 4, \"lazy\")() } else if act == 4 { r = fld(m, 5, \"hinc\")() } else { h.arr[1] += 1; r = h.arr[1] }\n")
+	sb.WriteString("\t\tr := undefined\n\t\tif act == 0 || act == 7 { r = fld(m, 2, \"inc\")() } else if act == 1 { r = fld(m, 1, \"get\")() } else if act == 6 { c := fld(m, 0, \"cell\"); c[0] += 1; r = c[0] } else if act == 2 { r = fld(m, 3, \"depinc\")() } else if act == 3 { r = fld(m, 4, \"lazy\")() } else if act == 4 { r = fld(m, 5, \"hinc\")() } else { h.arr[1] += 1; h.int = h.arr[1]; r = import(\"host\").int }\n")
 	sb.WriteString("\t\tlog(\"step\", k, act, r)\n\t} catch e {\n\t\tlog(\"fail\", k, e.Message)\n\t}\n}\nreturn \"done\"\n")
 	return sb.String()
 }
